@@ -839,3 +839,33 @@ V('C06-retry-rewinds', 'C06', EX,
   "            # recover from error ->\n            raise _TryAgainWithSkippedCommentOrWhitespaceNodes([], tok.pos)\n\n\n        if tok.tok == 'comment':",
   "            # recover from error ->\n            token_reader.move_to_token(tok)\n            raise _TryAgainWithSkippedCommentOrWhitespaceNodes([], tok.pos)\n\n\n        if tok.tok == 'comment':",
   'R06f')
+
+OPT = 'pylatexenc/latexnodes/parsers/_optionals.py'
+V('C02-revert-D25-eos-loses-star', 'C02', OPT,
+  """        try:
+            orig_pos_tok = token_reader.peek_token(parsing_state=parsing_state)
+        except LatexWalkerEndOfStream:
+            # end of input: there is no (further) marker here.  This must not
+            # abort the whole argument, a marker that was already read (e.g. the
+            # star of ``\\\\cmd*`` at the very end of the input) would be lost.
+            return None, None, None, token_reader.cur_pos()
+""",
+  """        orig_pos_tok = token_reader.peek_token(parsing_state=parsing_state)
+""", 'R02k', 'D25: end of input after the star aborts the whole argument')
+
+V('C16-revert-D26-legacy-body-delta', 'C16', 'pylatexenc/macrospec/_specclasses.py',
+  """        if inner_parsing_state is None:
+            # the legacy args parser did not request a specific state for the
+            # body: the spec's own body delta applies (e.g., is_math_mode=True),
+            # as it does when the arguments are given as an argument string
+            return spec.body_parsing_state_delta
+        return ParsingStateDeltaReplaceParsingState(set_parsing_state=inner_parsing_state)""",
+  """        return ParsingStateDeltaReplaceParsingState(set_parsing_state=inner_parsing_state)""",
+  'R16j', 'D26: legacy args parser object hides is_math_mode')
+
+V('C16-revert-D27-legacy-optarg-space', 'C16', 'pylatexenc/macrospec/_pyltxenc2_argparsers/_base.py',
+  """                    latexnodes_parsers.LatexOptionalSquareBracketsParser(
+                        allow_pre_space=True
+                    ),""",
+  """                    latexnodes_parsers.LatexOptionalSquareBracketsParser(),""",
+  'R16k', 'D27: legacy optional argument rejects leading whitespace')
